@@ -474,7 +474,7 @@ Section Proofs.
   Qed.
 
   Lemma file_push_spec fuel s name path d evs e s' :
-    file_ok s -> path_free s path -> file_push H comb true fuel s name path d evs = (e, s') ->
+    file_ok s -> (name <> [] -> path_free s path) -> file_push H comb true fuel s name path d evs = (e, s') ->
     file_ok s' /\
     (e = None ->
        exists bs, file_fetch s' name d = Some bs /\ file_exists s' name d = true /\
@@ -486,7 +486,7 @@ Section Proofs.
     (e <> None -> forall name' d', file_exists s' name' d' = file_exists s name' d' /\
                                    file_fetch s' name' d' = file_fetch s name' d').
   Proof.
-    intros [Ok1 Ok2] Pf. unfold file_push. destruct name as [|c name0].
+    intros [Ok1 Ok2] Pf0. unfold file_push. destruct name as [|c name0].
     - (* fallback: LimitedStorage over cas.Memory *)
       destruct (limited_push (mem_push H comb true fuel) defaultFallbackPushSizeLimit (f_fb s) d evs) as [e0 fb'] eqn:El.
       intro E; inversion E; subst; clear E.
@@ -505,6 +505,7 @@ Section Proofs.
              destruct A as (A1 & A2 & A3). repeat split; auto. exists rest; exact B.
         * split; [split; auto|]. split; [congruence|]. intros _ name' d'. destruct s; auto.
     - remember (c :: name0) as name eqn:Hn.
+      assert (Pf : path_free s path) by (apply Pf0; rewrite Hn; discriminate).
       destruct (name_in name (f_names s)) eqn:Nin.
       { intro E; inversion E; subst e s'. split; [split; auto|]. split; [discriminate|]. auto. }
       destruct (copy_buffer H comb true fuel (mkBase evs None) file_bufsz (d_dg d) (d_sz d)) as [[[e0|] out] v] eqn:Ec;
